@@ -262,7 +262,8 @@ CLAIMED = {
         note=TB + "The event summary is syntactic (named mutators, checkers and state attributes; if/else alternatives, loop "
              "bodies once): its completeness is trusted and cross-checked by the before/after exploration; the four allowed "
              "later calls (replace_with -> detach; TagNode.detach -> detach of children / insert_children / append_children) "
-             "are justified in Model/GuardOrder.lean and exercised by the C01 histories. Known finding: node[0] = "
+             "are justified in Model/GuardOrder.lean and exercised by the C01 histories. Fixed: a document's root could be moved "
+             "into another tree (313e3eb; c09_document_root_not_offerable). Known finding: node[0] = "
              "attached_node on an empty tag node (pinned by the suite).",
         technique="Lean 4 theorems over the guard model and over translator-generated check/mutation event paths (decide) + exhaustive-by-kind exploration of illegal calls on the implementation with before/after dumps",
         design="3/C09",
